@@ -11,6 +11,7 @@ FILES = {
     "zz_verif_c08_jsonmodel_test.go": "C08/jsonmodel_test.go",
     "zz_verif_c08_directed_test.go": "C08/directed_test.go",
     "zz_verif_c08_hostile_test.go": "C08/hostile_test.go",
+    "zz_verif_c08_safe_test.go": "C08/safe_test.go",
 }
 
 
@@ -73,6 +74,16 @@ class P(vlib.Prop):
         "JSON can express one NaN: the JSON theorems and oracles are stated for doubles that are not NaN or are the canonical NaN",
         "objects in JSON documents have no duplicate keys and at most one spelling of a key (the model is document-directed like the code, the correspondence only feeds such documents)",
     ]
+
+    def extra_checks(self, ctx):
+        """A panic inside the harness code itself (marker VERIF-HARNESS-PANIC, see harness/C08/safe_test.go) is a
+        bug of the check, not a statement about the code: say so in the broken-entry (implementation panics
+        are oracle kind 'panic' with their input and never end the run)."""
+        for i, (what, detail) in enumerate(ctx.broken):
+            if "VERIF-HARNESS-PANIC" in (detail or ""):
+                line = [l for l in detail.split("\n") if "VERIF-HARNESS-PANIC" in l][0].strip()
+                ctx.broken[i] = ("HARNESS BUG in harness/C08 (not a finding about /repo): " + line[:300], detail)
+                ctx.log("BROKEN: harness bug:", line[:200])
 
     def translate(self, ctx):
         """Dump the schema of the OTLP messages from the CURRENT tree (reflection over the generated
